@@ -29,6 +29,8 @@ def run(tier):
     for rel, q, c in OW.ITEMS:
         reps.append(deductive.verify_function(rel, q, c, hooks=OW.hooks_for(c), prefix='%s::%s[oracle wiring]' % (rel, q)))
     reps.append(OW.frame_report())
+    for rel, q, c in OW.LI_ITEMS:
+        reps.append(deductive.verify_function(rel, q, c, hooks=OW.hooks_for(c), prefix='%s::%s[what runs, what is stored]' % (rel, q)))
     reps += OW.fg_frame_reports()
     reps.append(OW.schedule_report())
     from ..contracts import feas as FE
